@@ -89,8 +89,9 @@ Inductive ty :=
 | TBool                    (* bool:            e.int(b2i(b))       <->  d.int() != 0     *)
 | TStr                     (* string / []byte: e.string / e.bytes  <->  d.string / d.bytes *)
 | TList (elem : ty)        (* e.int(len(l)); for ... { elem }     <->  make([]T, d.int()); for ... *)
-| TRec (fields : list (string * ty))   (* fields in wire order, with the Go field each carries *)
-| TUnion (alts : list ty). (* e.int(tag); payload                 <->  switch d.int() { case tag: ... } *)
+| TRec (fields : list (string * ty))   (* fields in wire order, each with the Go field it carries *)
+| TUnion (alts : list (string * ty)).  (* e.int(tag); payload     <->  switch d.int() { case tag: ... };
+                                          the tag is the position in the list *)
 
 Inductive val :=
 | VInt (z : Z)
@@ -124,12 +125,39 @@ Definition e_uint64 (x : Z) : result out :=
   | Some b => Ok {| o_p := b; o_s := [] |}
   | None => Err (EType "uint64 out of range")
   end.
-
-Definition obind (a : result out) (f : unit -> result out) : result out :=
-  match a with
-  | Ok x => match f tt with Ok y => Ok (oapp x y) | Err e => Err e end
+(* e.string(s): e.int(len(s)); e.s = append(e.s, s...) *)
+Definition e_str (s : bytes) : result out :=
+  match e_int (Z.of_nat (length s)) with
+  | Ok o => Ok {| o_p := o_p o; o_s := s |}
   | Err e => Err e
   end.
+
+Definition obind (a : result out) (b : result out) : result out :=
+  match a with
+  | Ok x => match b with Ok y => Ok (oapp x y) | Err e => Err e end
+  | Err e => Err e
+  end.
+
+Definition enc_elems (E : val -> result out) : list val -> result out :=
+  fix go (l : list val) : result out :=
+    match l with
+    | [] => Ok onil
+    | x :: r => obind (E x) (go r)
+    end.
+Definition enc_fields (E : ty -> val -> result out) : list (string * ty) -> list val -> result out :=
+  fix go (fs : list (string * ty)) (l : list val) : result out :=
+    match fs, l with
+    | [], [] => Ok onil
+    | (_, tf) :: fr, x :: r => obind (E tf x) (go fr r)
+    | _, _ => Err (EType "record arity")
+    end.
+Definition enc_alt (E : ty -> val -> result out) (v : val) : list (string * ty) -> nat -> result out :=
+  fix pick (alts : list (string * ty)) (k : nat) : result out :=
+    match alts, k with
+    | (_, ta) :: _, O => E ta v
+    | _ :: ar, S k' => pick ar k'
+    | [], _ => Err (EType "no such alternative")
+    end.
 
 Fixpoint enc (t : ty) (v : val) {struct t} : result out :=
   match t, v with
@@ -138,34 +166,13 @@ Fixpoint enc (t : ty) (v : val) {struct t} : result out :=
   | TU16, VInt z => e_int z
   | TU64, VInt z => e_uint64 z
   | TBool, VBool b => e_int (if b then 1 else 0)
-  | TStr, VStr s =>
-      match e_int (Z.of_nat (length s)) with
-      | Ok o => Ok {| o_p := o_p o; o_s := s |}
-      | Err e => Err e
-      end
-  | TList te, VList l =>
-      obind (e_int (Z.of_nat (length l))) (fun _ =>
-        (fix go (l : list val) : result out :=
-           match l with
-           | [] => Ok onil
-           | x :: r => obind (enc te x) (fun _ => go r)
-           end) l)
-  | TRec fs, VRec l =>
-      (fix go (fs : list (string * ty)) (l : list val) : result out :=
-         match fs, l with
-         | [], [] => Ok onil
-         | (_, tf) :: fr, x :: r => obind (enc tf x) (fun _ => go fr r)
-         | _, _ => Err (EType "record arity")
-         end) fs l
+  | TStr, VStr s => e_str s
+  | TList te, VList l => obind (e_int (Z.of_nat (length l))) (enc_elems (enc te) l)
+  | TRec fs, VRec l => enc_fields enc fs l
   | TUnion alts, VAlt tag v =>
       (* the encoder's type switch: emit the tag, then the payload *)
-      obind (e_int tag) (fun _ =>
-        (fix pick (alts : list ty) (k : nat) : result out :=
-           match alts, k with
-           | ta :: _, O => enc ta v
-           | _ :: ar, S k' => pick ar k'
-           | [], _ => Err (EType "no such alternative")
-           end) alts (Z.to_nat tag))
+      if tag <? 0 then Err (EType "negative tag")
+      else obind (e_int tag) (enc_alt enc v alts (Z.to_nat tag))
   | TUnion _, VNil => Ok onil   (* Encode's type switch matches no case: nothing is written *)
   | _, _ => Err (EType "shape")
   end.
@@ -203,65 +210,89 @@ Definition d_str (d : dst) : result (bytes * dst) :=
 Definition rmap {A B : Type} (f : A -> B) (r : result (A * dst)) : result (B * dst) :=
   match r with Ok (a, d) => Ok (f a, d) | Err e => Err e end.
 
+(* for i := range xs { xs[i] = elem() } with len(xs) = k *)
+Definition dec_elems (D : dst -> result (val * dst)) : nat -> dst -> result (list val * dst) :=
+  fix go (k : nat) (d : dst) : result (list val * dst) :=
+    match k with
+    | O => Ok ([], d)
+    | S k' =>
+        match D d with
+        | Err e => Err e
+        | Ok (x, d2) => rmap (cons x) (go k' d2)
+        end
+    end.
+Definition dec_fields (D : ty -> dst -> result (val * dst)) : list (string * ty) -> dst -> result (list val * dst) :=
+  fix go (fs : list (string * ty)) (d : dst) : result (list val * dst) :=
+    match fs with
+    | [] => Ok ([], d)
+    | (_, tf) :: fr =>
+        match D tf d with
+        | Err e => Err e
+        | Ok (x, d2) => rmap (cons x) (go fr d2)
+        end
+    end.
+Definition dec_alt (D : ty -> dst -> result (val * dst)) (tag : Z) (d : dst) : list (string * ty) -> nat -> result (val * dst) :=
+  fix pick (alts : list (string * ty)) (k : nat) : result (val * dst) :=
+    match alts, k with
+    | (_, ta) :: _, O => rmap (VAlt tag) (D ta d)
+    | _ :: ar, S k' => pick ar k'
+    | [], _ => Ok (VNil, d)        (* switch: no case matches, c stays nil *)
+    end.
+
 Fixpoint dec (t : ty) (d : dst) {struct t} : result (val * dst) :=
   match t with
-  | TInt => match d_int d with Ok (x, d1) => Ok (VInt x, d1) | Err e => Err e end
-  | TI32 => match d_int d with Ok (x, d1) => Ok (VInt (wrap32 x), d1) | Err e => Err e end
-  | TU16 => match d_int d with Ok (x, d1) => Ok (VInt (wrapu16 x), d1) | Err e => Err e end
-  | TU64 => match d_uint64 d with Ok (x, d1) => Ok (VInt x, d1) | Err e => Err e end
-  | TBool => match d_int d with Ok (x, d1) => Ok (VBool (negb (x =? 0)), d1) | Err e => Err e end
-  | TStr => match d_str d with Ok (s, d1) => Ok (VStr s, d1) | Err e => Err e end
+  | TInt => rmap VInt (d_int d)
+  | TI32 => rmap (fun x => VInt (wrap32 x)) (d_int d)
+  | TU16 => rmap (fun x => VInt (wrapu16 x)) (d_int d)
+  | TU64 => rmap VInt (d_uint64 d)
+  | TBool => rmap (fun x => VBool (negb (x =? 0))) (d_int d)
+  | TStr => rmap VStr (d_str d)
   | TList te =>
       match d_int d with
       | Err e => Err e
       | Ok (n, d1) =>
           if n <? 0 then Err (EPanic "makeslice: len out of range")
-          else rmap VList (
-            (fix go (k : nat) (d : dst) : result (list val * dst) :=
-               match k with
-               | O => Ok ([], d)
-               | S k' =>
-                   match dec te d with
-                   | Err e => Err e
-                   | Ok (x, d2) =>
-                       match go k' d2 with
-                       | Ok (r, d3) => Ok (x :: r, d3)
-                       | Err e => Err e
-                       end
-                   end
-               end) (Z.to_nat n) d1)
+          else rmap VList (dec_elems (dec te) (Z.to_nat n) d1)
       end
-  | TRec fs => rmap VRec (
-      (fix go (fs : list (string * ty)) (d : dst) : result (list val * dst) :=
-         match fs with
-         | [] => Ok ([], d)
-         | (_, tf) :: fr =>
-             match dec tf d with
-             | Err e => Err e
-             | Ok (x, d2) =>
-                 match go fr d2 with
-                 | Ok (r, d3) => Ok (x :: r, d3)
-                 | Err e => Err e
-                 end
-             end
-         end) fs d)
+  | TRec fs => rmap VRec (dec_fields dec fs d)
   | TUnion alts =>
       match d_int d with
       | Err e => Err e
       | Ok (tag, d1) =>
           if tag <? 0 then Ok (VNil, d1)   (* switch: no case matches, c stays nil *)
-          else
-            (fix pick (alts : list ty) (k : nat) : result (val * dst) :=
-               match alts, k with
-               | ta :: _, O =>
-                   match dec ta d1 with
-                   | Ok (v, d2) => Ok (VAlt tag v, d2)
-                   | Err e => Err e
-                   end
-               | _ :: ar, S k' => pick ar k'
-               | [], _ => Ok (VNil, d1)
-               end) alts (Z.to_nat tag)
+          else dec_alt dec tag d1 alts (Z.to_nat tag)
       end
+  end.
+
+(* The values a schema describes, with the ranges of the Go types behind them
+   (these are the ranges under which the round trip holds). *)
+Definition in_u16 (z : Z) : bool := (0 <=? z) && (z <=? 65535).
+Definition wt_fields (W : ty -> val -> bool) : list (string * ty) -> list val -> bool :=
+  fix go (fs : list (string * ty)) (l : list val) : bool :=
+    match fs, l with
+    | [], [] => true
+    | (_, tf) :: fr, x :: r => W tf x && go fr r
+    | _, _ => false
+    end.
+Definition wt_alt (W : ty -> val -> bool) (v : val) : list (string * ty) -> nat -> bool :=
+  fix pick (alts : list (string * ty)) (k : nat) : bool :=
+    match alts, k with
+    | (_, ta) :: _, O => W ta v
+    | _ :: ar, S k' => pick ar k'
+    | [], _ => false
+    end.
+Fixpoint wt (t : ty) (v : val) {struct t} : bool :=
+  match t, v with
+  | TInt, VInt z => in_int64 z
+  | TI32, VInt z => in_int32 z
+  | TU16, VInt z => in_u16 z
+  | TU64, VInt z => in_uint64 z
+  | TBool, VBool _ => true
+  | TStr, VStr s => (Z.of_nat (length s) <=? max_int64) && forallb is_byte s
+  | TList te, VList l => (Z.of_nat (length l) <=? max_int64) && forallb (wt te) l
+  | TRec fs, VRec l => wt_fields wt fs l
+  | TUnion alts, VAlt tag v => (0 <=? tag) && (tag <=? max_int64) && wt_alt wt v alts (Z.to_nat tag)
+  | _, _ => false
   end.
 
 (* ------------------------------------------------------------------ *)
@@ -279,7 +310,7 @@ Definition get_u32le (b0 b1 b2 b3 : Z) : Z :=
 (* Program.Encode: magic, "????", version, body...; patch offset := uint32(len(e.p));
    return append(e.p, e.s...) *)
 Definition encode_file (version : Z) (t : ty) (v : val) : result bytes :=
-  match obind (e_int version) (fun _ => enc t v) with
+  match obind (e_int version) (enc t v) with
   | Err e => Err e
   | Ok o =>
       let plen := 8 + Z.of_nat (length (o_p o)) in
